@@ -423,6 +423,33 @@ func (w *World) applyTx(ts *TxStep) error {
 	if err := w.observePNFT(obs); err != nil {
 		return err
 	}
+	if w.On("C16") {
+		// nothing outside the documented limits is ever stored by a transaction
+		for _, m := range obs.Msgs {
+			if !IsCustomMsg(m) {
+				continue
+			}
+			switch StatelessVerdict(m) {
+			case Reject:
+				w.Label("c16 out-of-limits message sent")
+				if ts.Exec > 0 {
+					w.Label("c16 out-of-limits message sent inside authz exec")
+				}
+				if obs.OK() {
+					return vio("C16", "a %T outside the documented limits was executed: %v", m, m)
+				}
+				for _, st := range customStores {
+					if !EqualKV(obs.Pre[st], obs.Post[st]) {
+						return vio("C16", "a refused out-of-limits %T changed the %s store", m, st)
+					}
+				}
+			case Accept:
+				if obs.OK() {
+					w.Label("c16 in-limits message executed")
+				}
+			}
+		}
+	}
 	if w.On("C15") {
 		if err := w.checkC15(obs); err != nil {
 			return err
